@@ -26,7 +26,11 @@ CONSTANTS
     MaxChan,        \* router::MAX_CHANNEL_CAPACITY (code: 200, scaled build: 4)
     MaxSched,       \* router::MAX_SCHEDULE_ITERATIONS (code: 100, scaled build: 2)
     OutBatch,       \* RouterConfig.max_outgoing_packet_count
-    MatchRel        \* set of <<topic, filter>> pairs that match (computed with MqttTopic!Matches)
+    MatchRel,       \* set of <<topic, filter>> pairs that match (computed with MqttTopic!Matches)
+    RFix            \* repairs applied to the router code (fix: commits in /repo); {} = the code as pinned.
+                    \* "ready_unknown": Ready/Shadow for a removed id is ignored (was: panic); Ready only wakes a Busy tracker
+                    \* "unsuback_one":  exactly one UNSUBACK per UNSUBSCRIBE (was: one per filter actually removed, none otherwise)
+                    \* "unsub_notifs":  unsubscribe also drops the request from `notifications`
 
 NONE == "none"
 Ids == 0..(MaxConn - 1)
@@ -116,12 +120,13 @@ Reschedule(r, id, reason) ==
     IF ~Live(r, id) THEN Panic(r)
     ELSE LET c == r.conns[id]
              wake == CASE reason = "Init"        -> c.status # "Ready"
-                       [] reason = "Ready"       -> c.status # "Ready"
+                       [] reason = "Ready"       -> IF "ready_unknown" \in RFix THEN c.status = "Busy" ELSE c.status # "Ready"
                        [] reason = "NewFilter"   -> c.status = "Caughtup"
                        [] reason = "FreshData"   -> c.status = "Caughtup"
                        [] reason = "IncomingAck" -> c.status \in {"Caughtup", "InflightFull"}
              \* debug_assert!(status == Paused(Busy)) for Init and Ready (debug builds)
-             assertFails == reason \in {"Init", "Ready"} /\ c.status \in {"Caughtup", "InflightFull"}
+             assertFails == /\ c.status \in {"Caughtup", "InflightFull"}
+                            /\ (reason = "Init" \/ (reason = "Ready" /\ "ready_unknown" \notin RFix))
          IN  IF assertFails THEN Panic(r)
              ELSE IF wake THEN [r EXCEPT !.conns[id].status = "Ready", !.readyq = Append(@, id)]
              ELSE r
@@ -284,7 +289,9 @@ RECURSIVE UnsubAll(_, _, _, _, _)
 UnsubAll(r, id, pkid, fs, force) ==
     IF fs = <<>> THEN [r |-> r, force |-> force]
     ELSE LET u == UnsubOne(r, id, Head(fs)[1])
-             r1 == IF u.acked THEN [u.r EXCEPT !.conns[id].acks = Append(@, NAck("unsuback", pkid, <<>>))] ELSE u.r
+             r0 == IF u.acked /\ "unsub_notifs" \in RFix
+                     THEN [u.r EXCEPT !.notifs = SelectSeq(@, LAMBDA e : ~(e[1] = id /\ e[2].f = Head(fs)[1]))] ELSE u.r
+             r1 == IF u.acked /\ "unsuback_one" \notin RFix THEN [r0 EXCEPT !.conns[id].acks = Append(@, NAck("unsuback", pkid, <<>>))] ELSE r0
          IN  UnsubAll(r1, id, pkid, Tail(fs), force \/ u.acked)
 
 \* Outgoing::register_ack: pop the head; it must carry this id
@@ -307,7 +314,10 @@ Packet(cy, id, p) ==
                r1 == [sr.r EXCEPT !.conns[id].acks = Append(@, NAck("suback", p.id, sr.codes))]
            IN  {[cy EXCEPT !.r = r1, !.force = TRUE, !.disc = (cy.disc \/ sr.bad)]}          \* no break after a refused filter
       [] p.t = "unsubscribe" ->
-           LET u == UnsubAll(r, id, p.id, p.fs, cy.force) IN {[cy EXCEPT !.r = u.r, !.force = u.force]}
+           LET u == UnsubAll(r, id, p.id, p.fs, cy.force) IN
+           IF "unsuback_one" \in RFix
+             THEN {[cy EXCEPT !.r = [u.r EXCEPT !.conns[id].acks = Append(@, NAck("unsuback", p.id, <<>>))], !.force = TRUE]}
+             ELSE {[cy EXCEPT !.r = u.r, !.force = u.force]}
       [] p.t = "puback" ->
            LET a == RegisterAck(c, p.id) IN
            IF ~a.ok THEN {[cy EXCEPT !.r = [r EXCEPT !.conns[id] = a.c], !.disc = TRUE, !.stop = TRUE]}
@@ -354,7 +364,7 @@ EvDeviceData(s, id) ==
          IN  {finish(cy) : cy \in ends}
 
 EvDisconnect(s, id) == Disconnection(s, id, FALSE)
-EvReady(s, id) == St(Reschedule(s.r, id, "Ready"), s.nets)
+EvReady(s, id) == IF "ready_unknown" \in RFix /\ ~Live(s.r, id) THEN s ELSE St(Reschedule(s.r, id, "Ready"), s.nets)
 
 \* handle_last_will
 EvPublishWill(s, cid) ==
